@@ -63,6 +63,20 @@ ROTS = CUBE_ROTS + GENERIC_ROTS + NEAR_ROTS  # 32; index 0 = identity
 N_GENERIC_END = len(CUBE_ROTS) + len(GENERIC_ROTS)
 N_CUBE = len(CUBE_ROTS)
 
+
+def _dense_rots():
+    """Thorough tier: every cube rotation composed with small / medium / nearly-quarter turns about four axes."""
+    out = []
+    for R in CUBE_ROTS:
+        for ax in ([1, 0, 0], [0, 1, 0], [0, 0, 1], [1, 1, 1]):
+            for a in (1e-9, 1e-6, 1e-3, 0.1, math.pi / 4, 1.0, math.pi / 2 - 1e-6):
+                out.append(R @ _axis_angle(ax, a))
+    return out
+
+
+DENSE_ROTS = _dense_rots()          # 672
+ALL_ROTS = ROTS + DENSE_ROTS        # orientation indices >= len(ROTS) address the dense set (thorough tiers only)
+
 OFFSETS = [np.zeros(3), np.array([1000.0, 0.0, 0.0]), np.array([-300.0, 500.0, 700.0]),
            np.array([0.5, -0.25, 0.125])]
 
@@ -80,7 +94,35 @@ def _dirs():
     return [d / np.linalg.norm(d) for d in out]
 
 
+def _dense_dirs():
+    """Thorough tier: all directions with components in {-2..2} plus axis / diagonal directions with 1e-9, 1e-5 perturbations."""
+    seen, out = set(), []
+    for v in itertools.product((-2, -1, 0, 1, 2), repeat=3):
+        if v == (0, 0, 0):
+            continue
+        d = np.array(v, dtype=float)
+        d = d / np.linalg.norm(d)
+        k = tuple(np.round(d, 12))
+        if k not in seen:
+            seen.add(k)
+            out.append(d)
+    for i in range(3):
+        for sgn in (1.0, -1.0):
+            for eps in (1e-9, 1e-5):
+                for j in range(3):
+                    if j != i:
+                        d = np.zeros(3)
+                        d[i] = sgn
+                        d[j] = eps
+                        out.append(d / np.linalg.norm(d))
+                        d = np.ones(3) * sgn
+                        d[j] += eps
+                        out.append(d / np.linalg.norm(d))
+    return out
+
+
 DIRS = _dirs()  # index 0 = generic (1,2,3)/|.|; then 26 lattice directions; then 3 more generic
+DENSE_DIRS = _dense_dirs()
 
 # ------------------------------------------------------------------ meshes
 
@@ -194,7 +236,7 @@ def n_sizes(t):
 
 def pose(ori, centre):
     T = np.eye(4)
-    T[:3, :3] = ROTS[ori]
+    T[:3, :3] = ALL_ROTS[ori]
     T[:3, 3] = centre
     return np.ascontiguousarray(T)
 
@@ -206,7 +248,7 @@ def _hull_ref(s, ori, kind):
     key = (s[0], s[1], ori, kind)
     if key not in _HULL_REF:
         v, _ = mesh_data(s[0])
-        H = rs.Hull((v * s[1]) @ ROTS[ori].T, kind)
+        H = rs.Hull((v * s[1]) @ ALL_ROTS[ori].T, kind)
         H._facets()
         _HULL_REF[key] = H
     return _HULL_REF[key]
